@@ -38,9 +38,18 @@ NOT_APPLICABLE = {}
 
 
 _CORR = "differential correspondence of the hand-written model + direct exact oracles of the statement"
+_SKEL = ("tie: translator at skeleton level (the statements of BitBirch.fit / _fit_buffers, of _BFNode.insert_bf_subcluster / "
+         "append_subcluster / update_split_subclusters, of _split_node and of the _BFSubcluster buffer arithmetic are "
+         "extracted as step lists into Gen/GFit.v and Gen/GTree.v on every run; hand-written interpreters Model/FitPlan.v "
+         "and Model/TreePlan.v give the steps their meaning; Proofs/GenTieFit.v, Proofs/GenTieTree.v prove that running "
+         "the extracted bodies is the model's fit loop, insert, split_node, upd_sub and merge_sub); ")
 TIES = {
+    "C01": _SKEL + _CORR + " after every operation",
+    "C02": _SKEL + _CORR + " after every operation",
+    "C08": _SKEL + _CORR + " with read-only walks of the whole internal tree after every operation",
     "C04": "tie: translator (page-release arithmetic and constructor regenerated from _memory.py: Gen/GMem.v, "
-           "Proofs/GenTieMem.v) for the release clause; " + _CORR + " for the representation clause",
+           "Proofs/GenTieMem.v; position and argument of the release check in the fit loops: Gen/GFit.v, "
+           "Proofs/GenTieFit.v) for the release clause; " + _CORR + " for the representation clause",
     "C05": "tie: translator (round file names, globs: Gen/GMr.v, Proofs/GenTieMr.v); " + _CORR,
     "C06": "tie: translator (batch plan, task labels, file names: Gen/GMr.v, Proofs/GenTieMr.v); " + _CORR
            + " under controlled task orders, real pools and hash seeds",
